@@ -27,7 +27,7 @@ pub type Ctx = HashMapContext<DefaultNumericTypes>;
 
 pub const H_VARS: [&str; 3] = ["a", "b", "f"];
 pub const H_FNS: [&str; 2] = ["f", "g"];
-pub const BEHAVIOURS: [&str; 4] = ["f", "g", "h", "k"];
+pub const BEHAVIOURS: [&str; 5] = ["f", "g", "h", "k", "n"];
 pub const MAX_ACTORS: usize = 4;
 
 pub fn static_behaviour(b: &str) -> &'static str {
@@ -382,6 +382,9 @@ fn probe_fn_names() -> Vec<&'static str> {
     let mut v: Vec<&'static str> = H_FNS.to_vec();
     v.push("a");
     v.push(UNKNOWN_FN);
+    // builtin names: `call_function` of a context never resolves builtins
+    v.push("len");
+    v.push("typeof");
     v
 }
 
@@ -997,7 +1000,7 @@ fn gen_program(
         max_depth: 4,
         well_typed_pct: cfg.well_typed_pct,
         fail_leaf_pct: if cfg.fault_free { 0 } else { *rng.pick(&[0u64, 5, 15]) },
-        builtins: !model.disabled && rng.percent(50),
+        builtins: if model.disabled { rng.percent(25) } else { rng.percent(50) },
         spiny: false,
         max_statements: 1,
         assign_pct: if statement { 85 } else { 0 },
